@@ -20,6 +20,22 @@ type Ctx struct {
 	P    *load.Program
 	W    *world.World
 	Tier string
+	memo map[string]*report.Result
+}
+
+// sibling evaluates another property's rule set on the same program (once per run) so that a
+// check can re-state the obligations of a clause it shares with that property (see adopt).
+func (c *Ctx) sibling(id string) *report.Result {
+	if c.memo == nil {
+		c.memo = map[string]*report.Result{}
+	}
+	if r, ok := c.memo[id]; ok {
+		return r
+	}
+	c.memo[id] = report.New(id, "other", "") // cycles between siblings resolve to an empty result
+	r := Registry[id](c)
+	c.memo[id] = r
+	return r
 }
 
 type CheckFn func(c *Ctx) *report.Result
